@@ -27,14 +27,16 @@ Lemma p_d_ok_parts :
   pc_doc (p_get c d) = false /\
   (forall a, In a (pc_rs (p_get c d) ++ pc_ws (p_get c d) ++ pc_cs (p_get c d)) ->
      p_act_target a = d -> p_is_addw a = true -> p_is_sock c d = true) /\
-  p_script_ok (l_own d (pc_rs (p_get c d))) = true /\ p_script_ok (l_own d (pc_cs (p_get c d))) = true.
+  p_script_ok (l_own d (pc_rs (p_get c d))) = true /\ p_script_ok (l_own d (pc_cs (p_get c d))) = true /\
+  p_refused c d = false.
 Proof.
   pose proof GD as K. unfold p_d_ok in K.
+  apply andb_true_iff in K. destruct K as [K G5b].
   apply andb_true_iff in K. destruct K as [K G4c].
   apply andb_true_iff in K. destruct K as [K G4r].
   apply andb_true_iff in K. destruct K as [K G3b].
   apply andb_true_iff in K. destruct K as [G1b G2b].
-  split; [|split; [|split; [|split]]].
+  split; [|split; [|split; [|split; [|split]]]].
   - intros x a N H. destruct (Nat.lt_ge_cases x (length c)) as [Lx|Lx].
     + rewrite forallb_forall in G1b. assert (Hx : In x (seq 0 (length c))) by (apply in_seq; lia).
       specialize (G1b x Hx). apply orb_true_iff in G1b. destruct G1b as [E|F].
@@ -50,17 +52,18 @@ Proof.
     congruence.
   - exact G4r.
   - exact G4c.
+  - apply negb_true_iff. exact G5b.
 Qed.
 
 Theorem p_refine_d ops be : p_ops_ok_d c d ops = true ->
   p_proj d (p_log (p_run be c ops)) = rev (a_log (l_run c d 0 (l_init c d) ops)).
 Proof.
-  intros GO. destruct p_d_ok_parts as (G1 & G2d & G3 & G4r & G4c).
+  intros GO. destruct p_d_ok_parts as (G1 & G2d & G3 & G4r & G4c & G5).
   assert (GO' : forall o x, In o ops -> o = POAddW x -> x = d -> p_is_sock c d = true).
   { intros o x H -> ->. unfold p_ops_ok_d in GO. rewrite forallb_forall in GO. specialize (GO _ H). simpl in GO.
     rewrite Nat.eqb_refl in GO. exact GO. }
   unfold p_log, p_run. rewrite p_proj_rev. f_equal. destruct be.
-  - apply (re_log _ _ _ _ (p_re_run c d G1 G2d G3 G4r G4c ops LM L GO' (p_init true c) (l_init c d) 0 eq_refl
+  - apply (re_log _ _ _ _ (p_re_run c d G1 G2d G5 G3 G4r G4c ops LM L GO' (p_init true c) (l_init c d) 0 eq_refl
                 (p_inv_init c true) (p_re_init c d))).
   - apply (rs_log _ _ _ _ (p_rs_run c d G1 G2d ops L (p_init false c) (l_init c d) 0 eq_refl (p_rs_init c d))).
 Qed.
@@ -75,7 +78,7 @@ Lemma p_cfg_ok_at c x : p_cfg_ok c = true -> p_dcfg_ok c x = true.
 Proof.
   intros H. destruct (Nat.lt_ge_cases x (length c)) as [L|L].
   - unfold p_cfg_ok in H. rewrite forallb_forall in H. apply H. apply in_seq. lia.
-  - unfold p_dcfg_ok. rewrite (p_get_overflow c x L). simpl. rewrite orb_true_r. reflexivity.
+  - unfold p_dcfg_ok, p_refused. rewrite (p_get_overflow c x L). simpl. rewrite orb_true_r. reflexivity.
 Qed.
 Lemma existsb_filter_le {A} (f g : A -> bool) l : existsb f (filter g l) = true -> existsb f l = true.
 Proof.
@@ -92,11 +95,12 @@ Qed.
 Lemma p_cfg_ok_d c d : p_cfg_ok c = true -> p_d_ok c d = true.
 Proof.
   intros GC. pose proof (p_cfg_ok_at c d GC) as K. unfold p_dcfg_ok in K.
+  apply andb_true_iff in K. destruct K as [K G5b].
   apply andb_true_iff in K. destruct K as [K G4c].
   apply andb_true_iff in K. destruct K as [K G4r].
   apply andb_true_iff in K. destruct K as [K G3b].
   apply andb_true_iff in K. destruct K as [G1b G2b].
-  unfold p_d_ok. rewrite G2b. rewrite (p_script_ok_filter _ _ G4r), (p_script_ok_filter _ _ G4c).
+  unfold p_d_ok. rewrite G2b, G5b. rewrite (p_script_ok_filter _ _ G4r), (p_script_ok_filter _ _ G4c).
   assert (G3' : p_is_sock c d || negb (existsb p_is_addw (filter (fun a => p_act_target a =? d)
                   (pc_rs (p_get c d) ++ pc_ws (p_get c d) ++ pc_cs (p_get c d)))) = true).
   { apply orb_true_iff in G3b. destruct G3b as [->|N]; auto. rewrite orb_true_iff. right.
